@@ -49,3 +49,8 @@ func VerifZobrist() (pieces [2][7][64]Hash, stm Hash, castling [4]Hash, epFile [
 func VerifReverse(r Reverse) (fifty Depth, castling Castles, ep Square, capture Piece) {
 	return r.fiftyCnt(), r.castlingChange(), r.enPassantChange(), r.capture()
 }
+
+// VerifSetHashes replaces the hash history of b by a copy of hs (the last
+// element is the hash of the current position), so that the scan of
+// Threefold can be exercised on arbitrary histories.
+func (b *Board) VerifSetHashes(hs []Hash) { b.hashes = append([]Hash(nil), hs...) }
